@@ -151,7 +151,7 @@ fn mk_fail(op: &Op, msg: String) -> Failure {
     Failure { message: format!("EmbeddedFS {}: {}", op.render(), msg), replay: json!({"kind": "c18", "op": op_to_json(op)}) }
 }
 
-fn op_to_json(op: &Op) -> Value {
+pub fn op_to_json(op: &Op) -> Value {
     match op {
         Op::CreateFile(p, b) => json!(["create_file", p, format!("hex:{}", crate::util::hex(b))]),
         Op::Append(p, b) => json!(["append_file", p, format!("hex:{}", crate::util::hex(b))]),
